@@ -81,6 +81,12 @@ reg("C11",
     "Doctype name None == '' (cannot be told apart). Known finding: a void-listed element with children (event-source).",
     "DESIGN.md §3 C11")
 
+reg("C19",
+    "round-trip property-based testing of to_sax: a recording handler validates the SAX event grammar and a tree rebuilt from the events (own builder; independently xml.dom.pulldom.SAX2DOM) must equal the directly traversed source tree minus comments/doctype",
+    "Exploration: trees parsed from generated soup (void, SVG/MathML, xlink:/xml:/xmlns attributes, namespacing on/off, documents and fragments) walked by both walkers; one startDocument/endDocument pair, balanced prefix mappings, properly nested element events, rebuilt tree == source tree (attributes as mappings). Held on everything explored.",
+    "SAX2DOM is compared on elements/namespaces/text only (it has attribute quirks of its own). Known finding: to_sax asserts on the walker's error token for a void-listed element with children.",
+    "DESIGN.md §3 C19")
+
 NOT_APPLICABLE = {}
 
 
